@@ -160,6 +160,15 @@ def gen_decl(rng, mode="valid", profile=None):
                 ft = mk(); fields.append(("F%d" % f, ft)); new.append(ft)
             provs.append(dict(kind=1, a=int(rng.chance(0.5)), e=0, req=[], groups=[], sty=groups[0][0], fields=fields))
             used.add(groups[0][0])
+            if rng.chance(0.3):
+                # nested expansion: a field of the expanded struct is itself a struct that is expanded (the provider
+                # list is shuffled at the end, so the inner Struct may be declared before the outer one)
+                inner = fields[0][1]
+                ifields = []
+                for f in range(rng.randint(1, 2)):
+                    ft = mk(); ifields.append(("G%d" % f, ft)); new.append(ft)
+                provs.append(dict(kind=1, a=0, e=0, req=[], groups=[], sty=inner, fields=ifields))
+                used.add(inner)
         avail += new
     root = mk()
     req = [a for a in avail if a not in used and rng.chance(0.75)]
@@ -188,9 +197,9 @@ def gen_decl(rng, mode="valid", profile=None):
             if structs and rng.chance(0.6):
                 s = rng.choice(structs)
                 if rng.chance(0.5) and avail:
-                    s['fields'].append(("G0", rng.choice(avail)))       # field type already supplied
+                    s["fields"].append(("Z0", rng.choice(avail)))       # field type already supplied
                 else:
-                    s['fields'].append(("G0", s['fields'][0][1]))       # two fields of the same type
+                    s["fields"].append(("Z0", s["fields"][0][1]))       # two fields of the same type
             else:
                 st = mk(); ft = mk()
                 provs.insert(0, dict(kind=0, a=0, e=0, req=[], groups=[[st]], sty=0, fields=[]))
